@@ -617,12 +617,16 @@ func getReferenceModificationsFromColumn(dbModel *model.DatabaseModel, table, uu
 		}
 		return getReferenceModificationsFromSet(dbModel, table, uuid, column, v, oldSet)
 	case ovsdb.OvsMap:
-		return getReferenceModificationsFromMap(dbModel, table, uuid, column, v)
+		var oldMap ovsdb.OvsMap
+		if old != nil {
+			oldMap = old.(ovsdb.OvsMap)
+		}
+		return getReferenceModificationsFromMap(dbModel, table, uuid, column, v, oldMap)
 	}
 	return nil
 }
 
-func getReferenceModificationsFromMap(dbModel *model.DatabaseModel, table, uuid, column string, value ovsdb.OvsMap) database.References {
+func getReferenceModificationsFromMap(dbModel *model.DatabaseModel, table, uuid, column string, value, old ovsdb.OvsMap) database.References {
 	if len(value.GoMap) == 0 {
 		return nil
 	}
@@ -640,7 +644,22 @@ func getReferenceModificationsFromMap(dbModel *model.DatabaseModel, table, uuid,
 
 	refs := database.References{}
 	for k, v := range value.GoMap {
-		if keyRefTable != "" {
+		// a pair with a key that is in the old map with a different value
+		// replaces that value: the key is still referenced and the old
+		// value no longer is
+		oldValue, replaced := old.GoMap[k]
+		replaced = replaced && oldValue != v
+		if replaced && valueRefTable != "" {
+			if to, ok := oldValue.(ovsdb.UUID); ok {
+				if _, ok := refs[valueSpec]; !ok {
+					refs[valueSpec] = database.Reference{}
+				}
+				if _, ok := refs[valueSpec][to.GoUUID]; !ok {
+					refs[valueSpec][to.GoUUID] = []string{from}
+				}
+			}
+		}
+		if keyRefTable != "" && !replaced {
 			switch to := k.(type) {
 			case ovsdb.UUID:
 				if _, ok := refs[keySpec]; !ok {
